@@ -1087,8 +1087,18 @@ class Exec:
         f = s.m.funcs.get(name)
         if name in ('_ZNSt7__cxx119to_stringEi', '_ZNSt7__cxx119to_stringEl', '_ZNSt7__cxx119to_stringEm', '_ZNSt7__cxx119to_stringEj', '_ZNSt7__cxx119to_stringEd', '_ZNSt7__cxx119to_stringEf', '_ZNSt7__cxx119to_stringEe', '_ZNSt7__cxx119to_stringEx', '_ZNSt7__cxx119to_stringEy',
                     '_ZN9__gnu_cxx12__to_xstringINSt7__cxx1112basic_stringIcSt11char_traitsIcESaIcEEEcEET_PFiPT0_mPKS8_P13__va_list_tagEmSB_z'):
-            # formatting stub: numeric value dropped from messages; yields an empty SSO string
+            # integers that are concrete on this path are printed exactly (they become file names, array names such as "V12", map keys);
+            # anything else is a formatting stub: the value is dropped from the message and an empty SSO string is returned
             p = args[0]
+            ints = {'_ZNSt7__cxx119to_stringEi': (32, True), '_ZNSt7__cxx119to_stringEl': (64, True), '_ZNSt7__cxx119to_stringEx': (64, True),
+                    '_ZNSt7__cxx119to_stringEj': (32, False), '_ZNSt7__cxx119to_stringEm': (64, False), '_ZNSt7__cxx119to_stringEy': (64, False)}
+            if name in ints and len(args) > 1 and isc(args[1]):
+                import cxxrt as _cx
+                w, sg = ints[name]; v = args[1] & ((1 << w) - 1)
+                if sg and v >> (w - 1): v -= 1 << w
+                _cx.make_string(s, st, p, list(str(v).encode()))
+                if nxt is not None: s.jump(st, fr, nxt)
+                return
             s.store_val(st, p, PTR(I8), Ptr(p.obj, p.off + 16)); s.store_val(st, Ptr(p.obj, p.off + 8), I64, 0); s.store_val(st, Ptr(p.obj, p.off + 16), I8, 0)
             if nxt is not None: s.jump(st, fr, nxt)
             return
